@@ -524,6 +524,40 @@ def campaign(ctx):
             ctx.sample("built", case)
         ctx.fail_all(r["fails"], case)
     ctx.run_given(case_strategy(ctx.thorough), body, max_examples=ctx.n(1500, 12000))
+    # every constraint keyword x every position a subschema can take (alone and as a branch of each combinator), with values on both
+    # sides of the bound: enumerated completely on every run (seed independent)
+    LEAVES = [({"type": "integer", "minimum": 3}, [2, 3, 4]), ({"type": "integer", "exclusiveMinimum": 3}, [3, 4]), ({"type": "number", "maximum": 3}, [3, 4, 2.5]),
+              ({"type": "integer", "exclusiveMaximum": 3}, [2, 3]), ({"type": "integer", "multipleOf": 3}, [3, 4]), ({"type": "string", "minLength": 2}, ["a", "ab"]),
+              ({"type": "string", "maxLength": 2}, ["ab", "abc"]), ({"type": "string", "pattern": "^[a-z]+$"}, ["ab", "a1"]), ({"type": "string", "enum": ["a", "b"]}, ["a", "c"]),
+              ({"type": "array", "items": {"type": "integer"}, "minItems": 2}, [[1], [1, 2]]), ({"type": "array", "items": {"type": "integer"}, "maxItems": 1}, [[1], [1, 2]]),
+              ({"type": "array", "items": {"type": "integer"}, "uniqueItems": True}, [[1, 2], [1, 1]])]
+    idx = 0
+    for leaf, vals in LEAVES:
+        other = {"type": "boolean"}
+        for wrap in ("plain", "anyOf", "oneOf", "allOf"):
+            sub = leaf if wrap == "plain" else {wrap: [leaf] if wrap == "allOf" else [leaf, other]}
+            for pos in ("top", "property", "items", "prefix", "additional", "nested"):
+                idx += 1
+                if idx % ctx.nshards != ctx.shard:
+                    continue
+                if pos == "top":
+                    case = {"schema": sub, "instances": list(vals)}
+                elif pos == "property":
+                    case = {"schema": {"type": "object", "properties": {"p": sub}}, "instances": [{"p": v} for v in vals]}
+                elif pos == "items":
+                    case = {"schema": {"type": "array", "items": sub}, "instances": [[v] for v in vals]}
+                elif pos == "prefix":
+                    case = {"schema": {"type": "array", "prefixItems": [other, sub]}, "instances": [[True, v] for v in vals]}
+                elif pos == "additional":
+                    case = {"schema": {"type": "object", "properties": {"k": {"type": "integer"}}, "additionalProperties": sub}, "instances": [{"k": 1, "zz": v} for v in vals]}
+                else:
+                    case = {"schema": {"type": "object", "properties": {"o": {"type": "object", "properties": {"p": sub}}}}, "instances": [{"o": {"p": v}} for v in vals]}
+                ctx.ev()
+                try:
+                    body(case)
+                except HarnessError:
+                    ctx.label("grid_case_refused")
+    ctx.extra["position_grid_exhaustive"] = True
     from .. import core as _core
     import sys as _sys
     _core.fuzz_tier_hyp(ctx, _sys.modules[__name__])
